@@ -119,6 +119,7 @@ SHARDS_RUN = {"cmd": "shards", "mode": "shards", "cases": {"quick": 60, "thoroug
 DELTA_RUNS = [{"cmd": "delta", "mode": "delta", "cases": {"quick": 120, "thorough": 3000}, "shards": {"quick": 4, "thorough": 16}},
               {"cmd": "delta-log", "mode": "delta", "cases": {"quick": 1000, "thorough": 20000}, "shards": {"quick": 4, "thorough": 16}}]
 LEAFUPD_RUN = {"cmd": "leafupd", "mode": "leafupd", "cases": {"quick": 400, "thorough": 12000}, "shards": {"quick": 3, "thorough": 16}}
+BRANCHUPD_FIRSTLEAF = {"cmd": "branchupd-firstleaf", "mode": "branchupd", "cases": {"quick": 1, "thorough": 1}, "corpus": True}
 BRANCHUPD_RUN = {"cmd": "branchupd", "mode": "branchupd", "cases": {"quick": 360, "thorough": 9000}, "shards": {"quick": 4, "thorough": 16}}
 OVERFLOW_RUN = {"cmd": "overflow", "mode": "overflow", "cases": {"quick": 160, "thorough": 3000}, "shards": {"quick": 4, "thorough": 16}}
 UNIT_RULE = (" Unit-level differentials through nomt::verif_api: triepos (every function of trie_pos.rs / page_id.rs / page_region.rs and the page node layout on positions of every depth 1..256, moves, page ids of depth 0..42, "
@@ -219,7 +220,7 @@ PROPS = {
             {"cmd": "image-branch-ops", "cases": {"quick": 48, "thorough": 800}, "shards": {"quick": 8, "thorough": 16}},
             # range-delete sweep: a fresh bulk-loaded store per length, one commit deleting a run of L keys inside one branch node (4 shards = 4 quarters of the sweep)
             {"cmd": "image-range-sweep", "cases": {"quick": 1, "thorough": 4}, "shards": {"quick": 4, "thorough": 16}, "per_shard_cases": True},
-            dict(OVERFLOW_RUN), dict(LEAFUPD_RUN), dict(BRANCHUPD_RUN),
+            dict(OVERFLOW_RUN), dict(LEAFUPD_RUN), dict(BRANCHUPD_RUN), dict(BRANCHUPD_FIRSTLEAF),
             DB("kv", 160, 1600, nops=16, big=True),
             DB("kv", 6, 60, nops=20, big=True, scale=100, shards_q=6),
             DB("general", 80, 800, nops=14),
